@@ -63,3 +63,18 @@ impl Parser {
     #[verifier::external_body] fn visit_cor(&mut self, node: &ConditionalOrContextAll) -> (r: IdedExpr) ensures r.expr == visit_cor_spec(*node) { unimplemented!() }
     #[verifier::external_body] fn visit_expr_node(&mut self, node: &ExprContextAll) -> (r: IdedExpr) ensures r.expr == visit_expr_spec(*node) { unimplemented!() }
 }
+// ---- || and && chains ----
+#[verifier::external_body] pub struct ConditionalAndContextAll { x: u8 }
+pub uninterp spec fn visit_cand_spec(node: ConditionalAndContextAll) -> Expr;
+pub struct ConditionalOrContext { pub ops: Vec<CommonToken>, pub e: Option<Rc<ConditionalAndContextAll>>, pub e1: Vec<Rc<ConditionalAndContextAll>> }
+impl ConditionalOrContext { #[verifier::external_body] pub fn start(&self) -> Rc<CommonToken> { unimplemented!() } }
+pub struct ConditionalAndContext { pub ops: Vec<CommonToken>, pub e: Option<Rc<RelationContextAll>>, pub e1: Vec<Rc<RelationContextAll>> }
+impl ConditionalAndContext { #[verifier::external_body] pub fn start(&self) -> Rc<CommonToken> { unimplemented!() } }
+impl Parser {
+    #[verifier::external_body] fn visit_cand(&mut self, node: &ConditionalAndContextAll) -> (r: IdedExpr) ensures r.expr == visit_cand_spec(*node) { unimplemented!() }
+}
+/// `e` is a balanced tree of `f` calls whose operands, read left to right, are `first` followed by `rest` (ids aside)
+pub open spec fn chain_of(e: IdedExpr, f: Seq<char>, first: Expr, rest: Seq<Expr>) -> bool {
+    exists|fs: String, ts: Seq<IdedExpr>, os: Seq<u64>| #[trigger] chain_ok(e, fs, ts, os) && fs@ == f && ts.len() == rest.len() + 1
+        && ts[0].expr == first && (forall|j: int| 0 <= j < rest.len() ==> (#[trigger] ts[j + 1]).expr == rest[j])
+}
